@@ -53,6 +53,17 @@ CLAIMED["C47"] = ("otr", "exploration",
    "No instrumentation needed (no goroutines). Replay/duplicate rejection and recovery after faults are not asserted (the property does not state them); messages contain no NUL byte; see the spec's assumptions for protocol-design exclusions.",
    "DESIGN.md section 4 H-otr")
 
+CLAIMED["C32"] = ("sauth", "exploration",
+   "deterministic simulation of a real server against an adversarial scripted client after a real key exchange; abstract RFC 4252 authentication session as reference model; callback invocation log",
+   "A real NewServerConn with generated callback outcome tables (accept, reject, partial success naming the next callbacks, Permissions with/without source-address, BannerError, VerifiedPublicKeyCallback) faces a client that completes the real key exchange and then sends generated histories of authentication requests (none, password, keyboard-interactive, public key queries, signatures that are valid / over another session id, user or service / by another key / in another format / malformed, unknown methods, user changes). Safety implications checked against the model: success only with a request that satisfies its method in the current stage, Permissions identical to the object the final successful callback returned, partial success only when the callback grants it; completeness only for unambiguous valid requests. Seeded sampling of histories and configurations.",
+   "Signature validity is known by construction. GSSAPI is not exercised. Trusted: scheduler, instrumenter, the harness's RFC 4252 request builder.",
+   "DESIGN.md section 4 H-sauth")
+CLAIMED["C33"] = ("sauth", "exploration",
+   "same simulation as C32 with long request histories, MaxAuthTries sweep, source-address lists against simulated remote addresses, callback log",
+   "On the histories of C32 plus histories of 100-140 never-failing requests: the server must have disconnected before answering a request once MaxAuthTries failures have occurred (an initial none attempt free, read both ways) and never answers a 129th request; after a partial success a request for another user is never honoured; authentication never succeeds when the successful Permissions carry a source-address option that no entry validly matches for the simulated remote address (IPv4, IPv6, non-TCP); the last PublicKeyCallback invocation before a public key success is for the authenticating key and user.",
+   "How malformed source-address entries are treated beyond 'cannot match' is not asserted. Premature disconnects are not asserted.",
+   "DESIGN.md section 4 H-sauth")
+
 NA = {
  "C01": "pure function of (key, nonce, plaintext, ad): no schedule, clock, peer, stream fault or persisted state for a simulator to own; needs an independent AEAD and input generation (differential testing)",
  "C02": "pure predicate over byte strings; tampering here is input mutation, not an in-flight fault on a stateful stream",
@@ -95,7 +106,7 @@ NA = {
 
 PLANNED = {
   
- "C32": "H-sauth", "C33": "H-sauth", "C34": "H-cauth", "C35": "H-flow", "C36": "H-mux",
+  "C34": "H-cauth", "C35": "H-flow", "C36": "H-mux",
  "C43": "H-agent",  "C50": "H-acme", "C51": "H-autocert",
 }
 
